@@ -106,6 +106,7 @@ class RegexVM:
         self.poll_callback = poll_callback
         self.stack_limit = stack_limit
         self.poll_interval = poll_interval
+        self._steps_since_poll = 0
         self.step_limit = step_limit
 
         self.ignorecase = "i" in flags
@@ -195,7 +196,12 @@ class RegexVM:
                 _VERIF_HOOK(self, "main")
             # Check limits periodically
             self._step_count += 1
-            if self._step_count % self.poll_interval == 0:
+            # The poll cadence runs across match attempts: a search that makes
+            # thousands of short attempts (split, global replace on a long
+            # subject) must still look at the deadline every poll_interval steps
+            self._steps_since_poll += 1
+            if self._steps_since_poll >= self.poll_interval:
+                self._steps_since_poll = 0
                 if self.poll_callback and self.poll_callback():
                     raise RegexTimeoutError("Regex execution timed out")
 
